@@ -233,6 +233,18 @@ fn seeds(ctx: &Ctx, env: &Env) -> Vec<(String, Vec<u8>)> {
     let files = foreign::sample_files();
     let order: Vec<usize> = (0..files.len()).collect();
     v.push(("hand-encoded".to_string(), foreign::package("hand", &files, foreign::newc_archive(&files, &order), None, false).join().0));
+    // the same with translated summary / description / group (a two-locale table)
+    {
+        use crate::pkgtool::{with_digests, DigestPlan, D};
+        use vlib::refhdr::Val;
+        let mut p = foreign::package("hand", &files[..1], foreign::newc_archive(&files[..1], &[0]), None, false);
+        p.main.retain(|(t, _)| ![1004u32, 1005].contains(t));
+        p.main.push((100, Val::strs(&["C", "de"])));
+        p.main.push((1004, Val::i18n(&["summary", "Zusammenfassung"])));
+        p.main.push((1005, Val::i18n(&["description", "Beschreibung"])));
+        p.main.push((1016, Val::i18n(&["group", "Gruppe"])));
+        v.push(("hand-i18n".to_string(), with_digests(&p, &DigestPlan { md5: D::Correct, sha1: D::Correct, sha256: D::Correct, payload: D::Correct, algo: 8 }).0));
+    }
     for rel in ["test_assets/fixture_packages/rpm-empty-0-0.x86_64.rpm", "test_assets/fixture_packages/rpm-empty-0-0.src.rpm"] {
         v.push((rel.rsplit('/').next().unwrap().to_string(), std::fs::read(ctx.asset(rel)).unwrap_or_else(|e| crate::ctx::machinery(&format!("{}: {}", rel, e)))));
     }
@@ -438,6 +450,12 @@ pub fn sweeps(ctx: &Ctx) -> Vec<Sweep> {
     let seeds = seeds(ctx, &env);
     for (name, bytes) in &seeds {
         v.push(mutate_sweep(tools.clone(), name, bytes.clone(), ctx.thorough()));
+        if name == "hand-i18n" {
+            // the reader's locale must not matter: the same sweep in worker processes under a German locale
+            let mut tw = mutate_sweep(tools.clone(), &format!("{}@de_DE", name), bytes.clone(), ctx.thorough()).with_env(&crate::sweep::LOCALE_DE);
+            tw.rule = format!("{} — worker processes started with LANG / LC_ALL / LC_MESSAGES = de_DE.UTF-8, LANGUAGE = de_DE:de", tw.rule);
+            v.push(tw);
+        }
     }
     if ctx.thorough() {
         for (name, bytes) in seeds.iter().take(2) {
